@@ -65,6 +65,21 @@ def f2_match(T):
     return len(declared) < T['seats']
 
 
+def f25_match(T):
+    """F25: meek family, the first over-commitment of seats is an in-iteration election (D.4) of a candidate that has the quota;
+    the count then ends in postCheck's AssertionError."""
+    if drive.fam(T['rule']) != 'meek' or T['outcome'] != 'exc' or T['exc'] != 'AssertionError':
+        return False
+    for a in T['acts']:
+        if sum(1 for s in a['st'] if s == 'E') > T['seats']:
+            c = a.get('subj', 0)
+            if a['tag'] != 'elect' or a['mc'] != 'elect' or not c:
+                return False
+            v, q = a['vote'][c - 1], a['quota']
+            return (v - q >= T.get('geps', 1)) if T.get('exactq') else v >= q
+    return False
+
+
 def f11_match(T):
     """F11: warren, an iteration ends 'stable' with a surplus above omega and a candidate is then excluded
     (the exclusion is decided with that surplus untransferred)."""
@@ -129,15 +144,25 @@ def model_stage(R, prop, tier, rules=None, export_mod=0, c03=False, known=None):
     if tier == 'thorough':
         scopes = [dict(nc=3, maxb=4, maxm=2, seatset=(1, 2, 3), ties=[(1, 2, 3), (3, 1, 2), (2, 3, 1)]),
                   dict(nc=4, maxb=3, maxm=1, seatset=(1, 2, 3), ties=[(1, 2, 3, 4), (4, 2, 3, 1)])]
-    for sc in scopes:
+    # beyond the exhaustive small scopes: TLC's random simulation of the same specification over a scope far too large to enumerate
+    # (5 candidates, up to 60 ballots, multipliers to 25, withdrawn and undeclared candidates) -- every behaviour is a whole election
+    simsc = dict(nc=5, maxb=60, maxm=25, seatset=(1, 2, 3), ties=[(1, 2, 3, 4, 5), (5, 3, 1, 2, 4), (2, 4, 5, 1, 3)], wds=((), (2,), (1, 5)))
+    scopes = [(sc, None) for sc in scopes] + [(simsc, 'num=%d' % (60 if tier == 'quick' else 1200))]
+    for sc, sim in scopes:
         unds = [(), (1,)] if any(c['rule'] == 'mpls' for c in cfgs) else [()]
-        res = model.mc_run(cfgs, check=[prop] if not c03 else ['C01', 'C09'], export=export_mod, unds=unds,
+        res = model.mc_run(cfgs, check=[prop] if not c03 else ['C01', 'C09'], export=(export_mod if sim is None else 7), unds=unds,
                            devs=[d for d in model.ALL_DEVS if model.DEV_FINDING[d] in known], devneutral=c03,
-                           timeout=3000 if tier == 'thorough' else 600, **sc)
+                           timeout=3000 if tier == 'thorough' else 600, simulate=sim,
+                           extra=(['-depth', '80', '-seed', str(vlib.seed() * 7919 + 17)] if sim else []), **sc)
         R.add_tlc(res)
         iv = model.invariant_violation(res['out'])
-        R.stage('model-check Droop.tla', scope=str(sc), configs=[c['rule'] + ':' + c['kind'] + str(c['p']) for c in cfgs],
-                distinct_states=res['distinct'], wall_s=round(res['wall'], 1), invariant_violated=iv[0] if iv else None)
+        if sim:
+            m = re.search(r'(\d+) states checked, (\d+) traces generated', res['out'])
+            R.stage('simulate Droop.tla', scope=str(sc), traces=int(m.group(2)) if m else None, states_checked=int(m.group(1)) if m else None,
+                    wall_s=round(res['wall'], 1), timed_out=bool(res.get('timeout')), invariant_violated=iv[0] if iv else None)
+        else:
+            R.stage('model-check Droop.tla', scope=str(sc), configs=[c['rule'] + ':' + c['kind'] + str(c['p']) for c in cfgs],
+                    distinct_states=res['distinct'], wall_s=round(res['wall'], 1), invariant_violated=iv[0] if iv else None)
         if iv:
             payloads = model.fails_of(res['out'])
             if not payloads:
@@ -160,6 +185,8 @@ def model_stage(R, prop, tier, rules=None, export_mod=0, c03=False, known=None):
             i = res['out'].find('Error:')
             raise vlib.Machinery('TLC error:\n' + res['out'][max(0, i - 300):i + 2500])
         cases = model.cases_of(res['out'])
+        if sim and len(cases) > (400 if tier == 'quick' else 6000):
+            cases = cases[:(400 if tier == 'quick' else 6000)]
         nd = 0
         for case in cases:
             d, T, (blt, opts, lp) = model.replay_case(case)
@@ -371,6 +398,9 @@ def check_counts(prop, tier):
                         continue
                 if p == 'C01' and cl == 'outcome' and 'F2' in known and f2_match(T):
                     R.known_finding('F2', known['F2']['text'])
+                    continue
+                if p == 'C01' and cl == 'outcome' and 'F25' in known and f25_match(T):
+                    R.known_finding('F25', known['F25']['text'])
                     continue
                 if p == 'C05' and 'F11' in known and f11_match(T):
                     R.known_finding('F11', known['F11']['text'])
